@@ -49,7 +49,7 @@ func c03Mentioned(ty an.Type, out map[string]bool, seen map[an.Type]bool) {
 		if typeName(ty) != typeName(ty.Underlying) {
 			out[typeName(ty)] = true
 		}
-		c03Mentioned(ty.Underlying, out, seen)
+		c03Mentioned(ty.Underlying, out, seen) // (a named type spelled like its target still needs the target declared)
 	case *an.Enum:
 		out[typeName(ty)] = true
 	case *an.Struct:
